@@ -107,7 +107,7 @@ def global_state_guard():
 
 
 class World:
-    def __init__(self, spec, faults=None, backend_script=None, record=True):
+    def __init__(self, spec, faults=None, backend_script=None, record=True, inplace=False):
         self.spec = spec
         self.log = Log()
         self.op_index = -1
@@ -120,6 +120,8 @@ class World:
         self.backend_fired = []
         self.counts = {}  # (kind, name) -> total calls
         self.record = record
+        # the caller keeps ONE options dictionary and edits it in place between calls (identity preserved across ops)
+        self.shared_o = {} if inplace else None
         self.by_thread = None  # thread-sim: {(thread name, kind, name): calls}
         self.structural = []  # structural ops applied so far (for twins)
         self.mutations = []  # input-dictionary / preset mutations observed (C08 monitor)
@@ -187,6 +189,10 @@ class World:
         kind = op["op"]
         with self.active():
             if kind in EVAL_OPS:
+                if self.shared_o is not None:
+                    self.shared_o.clear()
+                    self.shared_o.update(copy.deepcopy(op["o"]))
+                    return self._eval_op(kind, op, o_obj=self.shared_o)
                 return self._eval_op(kind, op)
             self._structural(op)
             self.structural.append(op)
